@@ -35,7 +35,8 @@ fn run<S: shared::src_trait::Src>(harness: &str, src: &mut S) -> Outcome {
         "c04_reply_paths" => r_c04::reply_paths(src),
         "c05_gate" => r_c05::gate(src),
         "c12_error_position" => r_c12::error_position(src),
-        "c14_execute_step" => r_c14::execute_step(src),
+        "c14_execute_step" => r_c14::execute_step(src, 5),
+        "c14_execute_step_b8" => r_c14::execute_step(src, 8),
         h if h.starts_with("c16_activation") => r_c16::activation(src),
         "c16_scheme" => r_c16::scheme(src),
         h if h.starts_with("c17_request") => r_c17::request(src),
